@@ -281,6 +281,32 @@ def gen_coll_history(rng, path, nops, big=False, reopen=0.05, ids=None, q=None, 
     return ops
 
 
+BOUNDARY_SIZES = [2097150, 2097151, 2097152]    # 2^21-1 = 0x1fffff: the 3-byte/4-byte step of the 7-bit length code
+
+
+def gen_boundary_history(rng, path, n):
+    """a short collection history around a payload whose length sits on a length-code boundary that the size
+    classes cannot reach: written, read, overwritten at the same size, followed by a neighbour, reopened, removed"""
+    q, dim, metric = 8, 2, rng.randint(0, 1)
+    ops = [{'op': 40, 'dim': dim, 'q': q, 'metric': metric, 'json': options_json(path, metric, dim, q)}]
+    v = lambda: P(data=random_vec_bytes(rng, q, dim))
+    a, b = rng.choice([5, 77, 2**64 - 1]), 6
+    s = rng.randrange(1, 10**6)
+    ops += [{'op': 20, 'id': a, 'vec': v(), 'meta': P(seed=s, n=n)}, {'op': 23, 'id': a},
+            {'op': 20, 'id': b, 'vec': v(), 'meta': P(seed=s + 1, n=rng.choice([10, 126, 127, 128]))},
+            {'op': 23, 'id': a}, {'op': 25}]
+    if rng.random() < 0.5:
+        ops += [{'op': 21, 'id': a, 'meta': P(seed=s + 2, n=n)}, {'op': 23, 'id': a}]
+    ops += [{'op': 30, 'mode': rng.choice([0, 1])}, {'op': 25}, {'op': 23, 'id': a}, {'op': 23, 'id': b}, {'op': 24},
+            {'op': 22, 'id': a}, {'op': 23, 'id': b}, {'op': 20, 'id': a, 'vec': v(), 'meta': P(seed=s + 3, n=n - rng.choice([0, 1, 20]))},
+            {'op': 30, 'mode': 1}, {'op': 25}, {'op': 23, 'id': a}, {'op': 23, 'id': b}, {'op': 32}]
+    return ops
+
+
+def is_big(ops):
+    return any(isinstance(o.get(k), P) and (o[k].n or 0) > 300000 for o in ops for k in ('meta', 'vec'))
+
+
 def gen_sf_history(rng, nops, big=False):
     """raw span-file histories: arbitrary record ids, 0..3 streams"""
     ops = [{'op': 41}]
